@@ -8,6 +8,7 @@ From RtrV Require Import Base.CSem Gen.Generated Rtr.RtrModel Rtr.RelFrame Rtr.R
      Rtr.RecvChunk Rtr.RecvTable Rtr.SendProofs Rtr.SendSites.
 From RtrV Require Rtr.RecvExamples.   (* concrete instances *)
 From RtrV Require Import Base.Mem Gen.GeneratedMem Rtr.CheckSizeTie Rtr.PrefixValidTie.
+From RtrV Require Import Base.MemW Gen.GeneratedMemW Rtr.FooterTie.
 Local Open Scope Z_scope.
 
 (* ---- (1) termination: all model functions are structural recursions (on the script, or on explicit fuel);
@@ -177,6 +178,51 @@ Theorem C04_prefix_check_translated : forall p,
   rtr_prefix_pdu_is_valid_gen (to_host_pfx p) (Some 0) (nthb p 1) = Some (b2z (prefix_lengths_valid p)).
 Proof. exact prefix_valid_translated. Qed.
 
+(* The one place of the receive path where the client WRITES at an offset chosen by the cache: rtr_pdu_convert_footer_byte_order
+   (called through rtr_pdu_footer_to_host_byte_order right after the size check; Error Report arm: the 4-byte text length at
+   12 + encapsulated length is byte-swapped in place).  Translated from /repo on every run in memory mode WITH STORES
+   (Gen/GeneratedMemW.v: every load guarded by ld_ok, every store by st_ok - one outside the PDU makes the function return None),
+   together with lrtr_convert_long/short, the header conversion, the IPv4 / IPv6 address conversions (local array + memcpy) and the
+   text-length load of rtr_handle_error_pdu.  Rtr/FooterTie.v, for EVERY buffer as rtr_receive_pdu holds it at that point
+   (recv_buffer: bytes, length = the header's length field in host order, payload in network order):
+     size check accepted  ->  the whole conversion runs inside the PDU's own bytes and equals the model footer_host;
+     Error Report arm: exactly bytes 8..11 and 12+e..15+e change (each group reversed);
+     afterwards the load of rtr_handle_error_pdu is inside the PDU and yields the text length the size check compared.
+   footer_needs_check_1/2 show the check is what keeps the store inside (without it: a write 96 bytes / 4 GiB behind the PDU). *)
+Theorem C04_footer_writes_inside : forall mem,
+  recv_buffer mem -> rtr_pdu_check_size_gen mem (Some 0) = Some 1 ->
+  exists mem', rtr_pdu_convert_footer_byte_order_gen mem (Some 0) c_TO_HOST_HOST_BYTE_ORDER = Some mem' /\
+               List.length mem' = List.length mem.
+Proof. exact footer_writes_inside. Qed.
+
+Theorem C04_footer_translated : forall mem,
+  recv_buffer mem -> rtr_pdu_check_size_gen mem (Some 0) = Some 1 ->
+  rtr_pdu_footer_to_host_byte_order_gen mem (Some 0) = Some (footer_host mem).
+Proof. exact footer_to_host_translated. Qed.
+
+Theorem C04_receive_path_inside : forall p,
+  Forall byte_ok p -> (8 <= zlen p)%Z -> zlen p = get32 p 4 ->
+  exists mem, rtr_pdu_header_to_host_byte_order_gen p (Some 0) = Some mem /\
+    rtr_pdu_check_size_gen mem (Some 0) <> None /\
+    (rtr_pdu_check_size_gen mem (Some 0) = Some 1 ->
+     exists mem', rtr_pdu_footer_to_host_byte_order_gen mem (Some 0) = Some mem' /\
+                  List.length mem' = List.length p).
+Proof. exact receive_path_inside. Qed.
+
+Theorem C04_error_text_len_load_inside : forall mem,
+  recv_buffer mem -> rtr_pdu_check_size_gen mem (Some 0) = Some 1 -> mbyte mem 1 = c_ERROR ->
+  let e := bswap32 (ldu mem (Some 8) 4) in
+  let t := bswap32 (ldu mem (Some (12 + e)) 4) in
+  exists mem', rtr_pdu_convert_footer_byte_order_gen mem (Some 0) c_TO_HOST_HOST_BYTE_ORDER = Some mem' /\
+    ldu mem' (Some offsetof_pdu_error__len_enc_pdu) 4 = e /\
+    rtr_handle_error_pdu__len_err_txt_gen mem' (Some 0) = Some t /\
+    zlen mem = (16 + e + t)%Z /\ (0 <= e)%Z /\ (0 <= t)%Z.
+Proof. exact error_text_len_load_inside. Qed.
+
+Example C04_footer_store_needs_the_check := footer_needs_check_1.
+Example C04_footer_translator_clean : memw_translator_problems = [].
+Proof. exact footer_translator_clean. Qed.
+
 Print Assumptions C04_prefix_check_translated.
 Print Assumptions C04_stored_prefix_key_ok.
 Print Assumptions C04_check_size_translated.
@@ -205,3 +251,7 @@ Print Assumptions C04_store_loop_fails.
 Print Assumptions C04_sync_fails.
 Print Assumptions C04_step_fails.
 Print Assumptions C04_stored_prefix.
+Print Assumptions C04_footer_writes_inside.
+Print Assumptions C04_footer_translated.
+Print Assumptions C04_receive_path_inside.
+Print Assumptions C04_error_text_len_load_inside.
